@@ -195,6 +195,8 @@ structure St where
   /-- ghost: every upstream message `dialSend` accepted (question check passed), with the key of the
   request it was accepted for - used only to state where answers come from -/
   accepted : List (Key × UpMsg)
+  /-- ghost: clients whose own request context has ended (the client went away) while they were being served -/
+  gone : List Nat
   deriving Repr
 
 def lookup {β} (l : List (Key × β)) (k : Key) : Option β := (l.find? (fun p => p.1 == k)).map (·.2)
@@ -203,7 +205,7 @@ def insert {β} (l : List (Key × β)) (k : Key) (v : β) : List (Key × β) := 
 
 def init (clients : List Client) : St :=
   { clients := clients, pcs := clients.map fun _ => Pc.init, cache := [], active := [], flights := [],
-    outs := [], calls := [], activated := 0, accepted := [] }
+    outs := [], calls := [], activated := 0, accepted := [], gone := [] }
 
 /-- `forwardWithFallback`: primary attempt, and for `tcp+udp` a TCP attempt when UDP failed or
 answered with TC=1 (`DoUDP.ForwardDNS` returns `ErrDNSTruncated`). -/
@@ -329,6 +331,11 @@ inductive Act where
   /-- optimistic cache: `backgroundRefresh` started for a stale entry served to client `i` finishes its
   upstream exchange (`dialSend` with `needResp = false`): only the cache can change -/
   | refresh (i : Nat) (sch : Scheme) (rounds : List Round)
+  /-- client `i`'s own request context ends (it went away, timed out, closed its connection) at any moment -
+  as a leader whose resolution is running, as a follower blocked in `sf.Do`, before or after.  The shared
+  resolution runs under the CONTROLLER's context (`c.newWorkContext`), `sf.Do` does not look at any context:
+  nothing but the ghost list changes. -/
+  | gone (i : Nat)
   deriving DecidableEq, Repr
 
 def step (cfg : Cfg) (s : St) : Act → St
@@ -407,7 +414,26 @@ def step (cfg : Cfg) (s : St) : Act → St
                  | .ok m => s.accepted ++ [(c.key, m)] | .err _ => s.accepted }
     | none => s
 
+  | .gone i => { s with gone := s.gone ++ [i] }
+
 def run (cfg : Cfg) (s : St) (as : List Act) : St := as.foldl (step cfg) s
+
+/-- the variant in which the function inside `sf.Do` derives its context from the LEADER's request context
+(`context.WithTimeout(ctx, 5s)` instead of `c.newWorkContext(5s)`): once the leader's client is gone the exchange
+is cancelled, i.e. the script of the upstream's answers is cut off -/
+def stepLeaderBound (cfg : Cfg) (s : St) : Act → St
+  | .resolve f sch rounds =>
+    match s.flights[f]? with
+    | some fl => if s.gone.contains fl.leader then step cfg s (.resolve f sch []) else step cfg s (.resolve f sch rounds)
+    | none => s
+  | a => step cfg s a
+
+def Act.isGone : Act → Bool
+  | .gone _ => true
+  | _ => false
+
+/-- forget who went away -/
+def St.strip (s : St) : St := { s with gone := [] }
 
 /-- the reply a caller of `Handle_` sends when it returns an error (`sendDnsErrorResponse_` with
 SERVFAIL, or `sendDnsTruncatedResponse_`): built from the client's own message -/
